@@ -5,3 +5,4 @@ import DvidModel.Props.C15
 import DvidModel.Props.C05
 import DvidModel.Props.C18
 import DvidModel.Props.C07
+import DvidModel.Props.C12
